@@ -17,6 +17,7 @@ pub mod c12;
 pub mod c13;
 pub mod c14;
 pub mod c15;
+pub mod c16;
 pub mod c17;
 pub mod c18;
 pub mod c20;
@@ -38,6 +39,7 @@ pub fn dispatch(args: &Args) -> i32 {
         "C13" => c13::run(args),
         "C14" => c14::run(args),
         "C15" => c15::run(args),
+        "C16" => c16::run(args),
         "C17" => c17::run(args),
         "C18" => c18::run(args),
         "C20" => c20::run(args),
